@@ -237,7 +237,7 @@ def python_gate(ctx: Ctx, py: PyProgram) -> None:
                     found = True
                     for d in bad:
                         dtxt = unparse(d) if isinstance(d, ast.AST) else str(d)
-                        k = key_of(EMU, "PCE500Emulator.step", f"def {a.id} = {dtxt}")
+                        k = key_of(EMU, "PCE500Emulator.step", f"master-enable gate also defined as {dtxt}")
                         if k not in reported_defs:
                             reported_defs.add(k)
                             ctx.violation("C12.2/gate-def", k,
@@ -260,7 +260,7 @@ def python_gate(ctx: Ctx, py: PyProgram) -> None:
                     src_ok = True
         if not src_ok:
             ctx.violation("C12.1/gate-source", skey, f"{kind} is not dominated by a mask/status test `(IMR & ISR) != 0`", where, guards=texts)
-    ctx.instance("C12.2/python-gate-defs", "definitions of the master-enable gate variable reaching the delivery test", len(defs.get("irm_enabled", [])) or 1, 1)
+    ctx.instance("C12.2/python-gate-defs", "definitions of the master-enable gate variable reaching the delivery test", len(reported_defs) + 1, 1)
 
 
 def python_frame_values(ctx: Ctx, py: PyProgram) -> None:
